@@ -147,6 +147,7 @@ def code_matches(got, want):
 
 
 INTERLACED = [0]
+NOT_RGBA = [0]
 
 
 def random_label_png(rng):
@@ -161,6 +162,11 @@ def random_label_png(rng):
     pool = [(b'gAMA', struct.pack('>I', 45455)), (b'pHYs', struct.pack('>IIB', 2835, 2835, 1)), (b'bKGD', struct.pack('>HHH', 0, 0, 0)),
             (b'tEXt', b'Software\x00some editor'), (b'sRGB', b'\x00'), (b'tIME', struct.pack('>HBBBBB', 2021, 3, 4, 5, 6, 7))]
     extra = [c for c in pool if rng.random() < 0.3]
+    if rng.random() < 0.1:
+        # a picture without alpha channel (a screenshot saved under the cart's name): it has no room for the cart's top two bits, so the
+        # write is either refused (the picture stays) or produces a picture that does hold the cart
+        NOT_RGBA[0] += 1
+        return rc.png_encode_rgb(w, h, rows), rows
     if rng.random() < 0.15:
         # saved with the "interlaced" option of an image editor (Adam7)
         INTERLACED[0] += 1
@@ -254,7 +260,12 @@ def run_case(ctx, rng, c, workdir):
     before = None
     if dest_exists:
         n_int = INTERLACED[0]
+        n_rgb = NOT_RGBA[0]
         png, label_rows = random_label_png(rng)
+        if NOT_RGBA[0] > n_rgb:
+            ctx.feature('label_source_without_alpha_channel')
+            if exp == 'succeed':
+                exp = 'either'
         if INTERLACED[0] > n_int:
             ctx.feature('interlaced_label_source')
         with open(dest, 'wb') as fh:
@@ -499,7 +510,7 @@ def gates(m, tier):
     f, mon = m['features'], m['monitors']
     missed = []
     for k in ('class:empty', 'class:onechar', 'class:short', 'class:typical', 'class:repetitive_small', 'class:update60_start',
-              'class:update60_middle', 'class:update60_end', 'class:update60_raw', 'class:allbytes', 'pictures_next_to_the_destination', 'gfx_object_replaced', 'label_source_of_another_size', 'interlaced_label_source', 'class:incompressible', 'class:near_compressed', 'class:oversize',
+              'class:update60_middle', 'class:update60_end', 'class:update60_raw', 'class:allbytes', 'pictures_next_to_the_destination', 'gfx_object_replaced', 'label_source_of_another_size', 'interlaced_label_source', 'label_source_without_alpha_channel', 'class:incompressible', 'class:near_compressed', 'class:oversize',
               'class:repetitive_big', 'class:convert', 'class:stream_entry', 'class:cli_entry', 'dest_exists', 'dest_absent'):
         if f.get(k, 0) < 1:
             missed.append('%s never generated' % k)
